@@ -56,6 +56,7 @@ pub fn run(op: &str, a: &[&str]) -> Option<Out> {
             let mut outs = vec![];
             for o in &a[2..] {
                 if *o == "r" { outs.push(t.random_felt_to_prover()); }
+                else if let Some(x) = o.strip_prefix("R:") { outs.extend(t.random_felts_to_prover(felt(x))); }
                 else if let Some(x) = o.strip_prefix("f:") { t.read_felt_from_prover(&felt(x)); }
                 else if let Some(x) = o.strip_prefix("v:") { t.read_felt_vector_from_prover(&felts(x)); }
                 else if let Some(x) = o.strip_prefix("u:") { t.read_uint64_from_prover(u64h(x)); }
